@@ -11,8 +11,8 @@ K = 1 / F("2.41e-4")          # s MHz^2 / (pc cm^-3), the statement's constant
 def delay_s(dm, f_hz, fref_hz):
     """Exact delay in seconds of frequency f relative to f_ref (Fractions; DM in pc/cm^3)."""
     fm = F(f_hz) / 10 ** 6
-    rm = F(fref_hz) / 10 ** 6
-    return K * F(dm) * (1 / fm ** 2 - 1 / rm ** 2)
+    inv_r2 = F(0) if fref_hz is None else 1 / (F(fref_hz) / 10 ** 6) ** 2      # None = infinite reference frequency
+    return K * F(dm) * (1 / fm ** 2 - inv_r2)
 
 
 def delay_samples(dm, f_hz, fref_hz, sr_hz):
@@ -22,9 +22,9 @@ def delay_samples(dm, f_hz, fref_hz, sr_hz):
 def chirp_phase_cycles(dm, f_hz, fref_hz):
     """phi = K*DM*f*(1/f_ref - 1/f)^2 in cycles (f in MHz inside, K in s MHz^2 -> cycles = s*MHz*1e6)."""
     fm = F(f_hz) / 10 ** 6
-    rm = F(fref_hz) / 10 ** 6
+    inv_r = F(0) if fref_hz is None else 1 / (F(fref_hz) / 10 ** 6)             # None = infinite reference frequency
     # K [s MHz^2] * f[MHz] * (1/MHz)^2 = s * MHz = 1e6 cycles
-    return K * F(dm) * fm * (1 / rm - 1 / fm) ** 2 * 10 ** 6
+    return K * F(dm) * fm * (inv_r - 1 / fm) ** 2 * 10 ** 6
 
 
 def near_integer(x, eps=F(1, 10 ** 9)):
